@@ -37,7 +37,7 @@ var c15Specs = map[string]c15Spec{
 	"FieldsSetRequired":    {writes: []string{"StructField.Required", "Type.Nullable", "StructType.Fields"}},
 	"FieldsSetNotRequired": {writes: []string{"StructField.Required", "Type.Nullable", "StructType.Fields"}},
 	"FieldsSetDefault":     {writes: []string{"Type.Default", "StructType.Fields"}},
-	"ReplaceReference":     {writes: []string{}},
+	"ReplaceReference":     {writes: []string{"Type.Nullable", "Type.Default"}, note: "both are set on the freshly built reference that takes the place of the matched one (copied from it)"},
 	"ConstantToEnum":       {writes: []string{"Object.Type"}},
 	"TrimEnumValues":       {writes: []string{"EnumValue.Value"}, all: true},
 	"HintObject":           {writes: []string{"Type.Hints"}},
